@@ -72,7 +72,8 @@ class _State:
         if self.removed and permament:
             raise PERMAMENT_ERROR
         self.debug = False
-        self.removed = permament
+        if permament:
+            self.removed = True
         if warn:
             self._warn_if(TEST_ENV, 'disabled')
 
